@@ -69,6 +69,24 @@ def r2_content_type(chk: Check) -> None:
             chk.decide("case.media_type" in canon(fn, v), "C06.R2", fn, "Content-Type = case.media_type", f"Content-Type is set from `{src}`", fn.loc(stores[0]))
             t = " and ".join(x for a in ancestors(stores[0]) if isinstance(a, ast.If) for x in sorted(canon(fn, a.test)))
             chk.expect("case.media_type" in t and "isinstance(case.body, NotSet)" in t, "C06.R2", fn, "Content-Type only when a body is present", f"guard `{t}`", fn.loc(stores[0]))
+            # media types EXCLUDED from the header: allowed only where the transport's client builds that header itself
+            # (requests writes `multipart/form-data; boundary=...` from `files=`); werkzeug's EnvironBuilder, on the contrary,
+            # picks the body ENCODING from the Content-Type it is given - without it form fields go out urlencoded
+            import re as _re
+            ALLOWED_EXCLUSIONS = {"RequestsTransport": {"multipart/form-data"}, "WSGITransport": set()}
+            guards = [a.test for a in ancestors(stores[0]) if isinstance(a, ast.If)]
+            excluded: set[str] = set()
+            for gt in guards:
+                for cmp_ in (x for x in ast.walk(gt) if isinstance(x, ast.Compare) and len(x.ops) == 1 and isinstance(x.ops[0], (ast.NotEq, ast.NotIn))):
+                    excluded |= {c_.value for c_ in ast.walk(cmp_) if isinstance(c_, ast.Constant) and isinstance(c_.value, str) and "/" in c_.value}
+            extra = excluded - ALLOWED_EXCLUSIONS[cls]
+            construct = f"{cls}: no media type is left without its Content-Type"
+            if extra:
+                chk.violation("C06.R2", fn, construct,
+                              f"{sorted(extra)} excluded from the Content-Type header: this transport's client does not add the header itself - for WSGI werkzeug then encodes the form fields as application/x-www-form-urlencoded, so the wire body is not the case's media type while the case, the recorded request and the reproduction command still say multipart",
+                              fn.loc(stores[0]))
+            else:
+                chk.ok("C06.R2", fn, construct, f"exclusions: {sorted(excluded) or 'none'}", fn.loc(stores[0]))
         ser = [c for c in body_calls(fn) if unparse(c.func) == "self._get_serializer"]
         chk.decide(bool(ser) and "case.media_type" in canon(fn, ser[0].args[0]), "C06.R2", fn, "serializer chosen by the case's media type", "serializer lookup uses something else than the case's media type", fn.loc())
         ser_vars = defined_by(fn, "$v = self._get_serializer($_)")
